@@ -22,8 +22,10 @@ Inductive node :=
 | NSymlink (name : list bytes) (m : meta) (xattrs : list (bytes * bytes)) (target : bytes)
 | NDevice (name : list bytes) (m : meta) (xattrs : list (bytes * bytes)) (major minor : N).
 
-Record astate := mkAState { a_dir : list bytes; a_last : option elem }.
-Definition astate0 : astate := mkAState [] None.
+(* a_started: a.started, set once the first (nameless, root) entry has been returned;
+   every later entry needs a name *)
+Record astate := mkAState { a_dir : list bytes; a_last : option elem; a_started : bool }.
+Definition astate0 : astate := mkAState [] None false.
 
 (* a.last only ever holds a Filename or a Goodbye element; what matters is that it
    is never an Entry *)
@@ -70,18 +72,25 @@ Definition bad_name (n : bytes) : bool :=
 Definition join (dir : list bytes) (name : bytes) : list bytes :=
   match name with [] => dir | _ => dir ++ [name] end.
 
-(* what Next does once the loop is left with an entry *)
-Definition finish (st : astate) (l : locals) (e : meta) : option node * astate :=
+(* the node Next returns once the loop is left with an entry *)
+Definition finish_node (st : astate) (l : locals) (e : meta) : option node * astate :=
   match l_payload l, l_device l, l_symlink l with
   | None, None, None =>
       let d := join (a_dir st) (l_name l) in
-      (Some (NDirectory d e (l_xattrs l)), mkAState d (a_last st))
+      (Some (NDirectory d e (l_xattrs l)), mkAState d (a_last st) (a_started st))
   | Some (size, data), _, _ =>
       (Some (NFile (join (a_dir st) (l_name l)) e (l_xattrs l) (sub64 size 16) data), st)
   | None, Some (major, minor), _ =>
       (Some (NDevice (join (a_dir st) (l_name l)) e (l_xattrs l) major minor), st)
   | None, None, Some target =>
       (Some (NSymlink (join (a_dir st) (l_name l)) e (l_xattrs l) target), st)
+  end.
+
+(* after the loop: if name == "" && a.started { return InvalidFormat }; a.started = true; build the node *)
+Definition finish (st : astate) (l : locals) (e : meta) : M (option node * astate) :=
+  match l_name l, a_started st with
+  | [], true => fail InvalidFormat
+  | _, _ => ret (finish_node (mkAState (a_dir st) (a_last st) true) l e)
   end.
 
 (* the loop of ArchiveDecoder.Next.  Each iteration takes a.last (at most once
@@ -91,7 +100,7 @@ Fixpoint archive_loop (fuel : nat) (st : astate) (l : locals) : M (option node *
   | O => fail OutOfFuel
   | S fuel' =>
       do c_st <- match a_last st with
-                 | Some c => ret (Some c, mkAState (a_dir st) None)
+                 | Some c => ret (Some c, mkAState (a_dir st) None (a_started st))
                  | None => do c <- next Fixed; ret (c, st)
                  end;
       let c := fst c_st in
@@ -110,8 +119,8 @@ Fixpoint archive_loop (fuel : nat) (st : astate) (l : locals) : M (option node *
       | Some (Payload h data) =>
           match l_entry l with
           | None => fail InvalidFormat
-          | Some e => ret (finish st (mkLocals (l_entry l) (Some (h_size h, data)) (l_symlink l) (l_device l)
-                                               (l_xattrs l) (l_name l)) e)
+          | Some e => finish st (mkLocals (l_entry l) (Some (h_size h, data)) (l_symlink l) (l_device l)
+                                          (l_xattrs l) (l_name l)) e
           end
       | Some (XAttr _ nv) =>
           match l_entry l, split_nul nv with
@@ -134,7 +143,7 @@ Fixpoint archive_loop (fuel : nat) (st : astate) (l : locals) : M (option node *
           end
       | Some (Filename h name) =>
           match l_entry l with
-          | Some e => ret (finish (mkAState (a_dir st) (Some (Filename h name))) l e)
+          | Some e => finish (mkAState (a_dir st) (Some (Filename h name)) (a_started st)) l e
           | None =>
               if bad_name name then fail InvalidFormat
               else archive_loop fuel' st (mkLocals (l_entry l) (l_payload l) (l_symlink l) (l_device l)
@@ -142,8 +151,8 @@ Fixpoint archive_loop (fuel : nat) (st : astate) (l : locals) : M (option node *
           end
       | Some (Goodbye h items) =>
           match l_entry l with
-          | Some e => ret (finish (mkAState (a_dir st) (Some (Goodbye h items))) l e)
-          | None => archive_loop fuel' (mkAState (removelast (a_dir st)) (a_last st)) l
+          | Some e => finish (mkAState (a_dir st) (Some (Goodbye h items)) (a_started st)) l e
+          | None => archive_loop fuel' (mkAState (removelast (a_dir st)) (a_last st) (a_started st)) l
           end
       | Some (Index _ _ _ _ _) | Some (Table _ _) => fail Unsupported
       end
